@@ -15,7 +15,7 @@ CLAUSES = {
     "dense-fill": "dense layout: [record, pid] holds the value while the particle lives and fill otherwise",
 }
 BOUNDS = {
-    "quick": "Nsteps 3, record every step, 2 release rows at any steps with mult 0..2 (<=3 particles), each particle dies at any step or never (IBM), numrec 0 or 2, sparse and dense, three time-reversed scenarios; positions, velocity, particle values, reference time symbolic",
+    "quick": "Nsteps 3, record every step, 2 release rows at any steps with mult 0..2 (<=3 particles), each particle dies at any step or never (IBM), numrec 0 or 2, sparse and dense, three time-reversed scenarios; positions, velocity, particle values, reference time symbolic; dense files: the declared _FillValue of every floating point variable",
     "thorough": "Nsteps 4, 3 rows, <=4 particles, period 1 and 2",
 }
 ASSUMES = ["values are stored exactly (no f4/i4 narrowing)", "constant symbolic velocity, EF, interior positions (the tracker itself is C01/C09)"]
